@@ -84,9 +84,12 @@ def replay(d):
         for k, rev in a['cons']:
             i, j = pre['shape']['cons'][k]
             cn.append((names[j], names[i]) if rev else (names[i], names[j]))
-        g.reorder(bn, cn if cn else None)
+        exc = None
+        try: g.reorder(bn, cn if cn else None)
+        except Exception as ex: exc = '%s: %s' % (type(ex).__name__, ex)
         b1, c1 = describe(g)
         bad = cmp_connections(c0, c1)
+        if exc: bad['raised'] = 'raised ' + exc
         if b0 != b1: bad['block-data'] = 'block data changed: %r -> %r' % (b0, b1)
         if [b.name for b in g.blocklist] != bn: bad['block-order'] = 'block order %r, requested %r' % ([b.name for b in g.blocklist], bn)
         if cn and [tuple(b.name for b in c.block) for c in g.connectionlist] != cn:
@@ -94,9 +97,21 @@ def replay(d):
         head = 'reorder(%r, %r) on connections %r' % (bn, cn, [(names[i], names[j]) for i, j in pre['shape']['cons']])
     elif op == 'rename_blocks':
         mp = dict((k, v) for k, v in a['map'])
-        g.rename_blocks(dict(mp), fix_blocknames=a['fix'])
+        exc = None
+        try:
+            g.rename_blocks(dict(mp), fix_blocknames=a['fix'])
+            if a.get('then_reorder'):
+                g.reorder([b.name for b in blocks][::-1], [tuple(b.name for b in c.block)[::-1] for c in cons][::-1] or None)
+        except Exception as ex: exc = '%s: %s' % (type(ex).__name__, ex)
         b1, c1 = describe(g)
         bad = cmp_connections(c0, c1, rename=mp)
+        if exc: bad['raised'] = 'raised ' + exc
+        eb = blocks[::-1] if a.get('then_reorder') else blocks
+        ec = cons[::-1] if a.get('then_reorder') else cons
+        if [id(b) for b in g.blocklist] != [id(b) for b in eb]:
+            bad['block-order'] = 'block list %r is not the expected list of the same objects' % (g.blocklist,)
+        if [id(x) for x in g.connectionlist] != [id(x) for x in ec]:
+            bad['connection-order'] = 'connection list %r is not the expected list of the same objects' % (g.connectionlist,)
         exp = {}
         for n, v in b0.items(): exp.setdefault(mp.get(n, n), []).extend(v)
         if exp != b1: bad['block-data'] = bad['block-name'] = 'blocks expected %r, found %r' % (exp, b1)
